@@ -1955,6 +1955,27 @@ def extract_select(read, fail):
     lets = [st for st in stmts if st[0] == "let" and st[3][0] == "pathcall" and st[3][1] == "Vec::new"]
     if len(lets) != 1 or [st[0] for st in stmts] != ["let", "for", "for"]:
         fail(f"{path}: `filter_headers` no longer starts with `let mut filters = Vec::new();` and the two selection loops")
+    # the TAIL is not translated, but its shape is checked (fail closed), so that "the filters handed to `FilterHeaderAction::new`"
+    # and "the new `rules_applied`" are what the two loops computed: (a) the next statement is
+    # `let [mut] x = match FilterHeaderAction::new(filters) {`, (b) `filters` does not occur again, (c) the only use of `self` in the
+    # tail is `self.get_applied_rule_ids()` and the identifier `rules_applied` does not occur, (d) that getter still returns the field
+    fvar = lets[0][1]
+    rest = parser.t[parser.i:]
+    texts = [t.text for t in rest]
+    k = 2 if len(texts) > 1 and texts[1] == "mut" else 1
+    want = ["=", "match", "FilterHeaderAction", "::", "new", "(", fvar, ")", "{"]
+    if not texts or texts[0] != "let" or len(texts) < k + 1 + len(want) or rest[k].kind != "id" or texts[k + 1:k + 1 + len(want)] != want:
+        parser.i = min(parser.i, len(parser.t) - 1)
+        parser.fail(f"the statement after the selection loops is no longer `let x = match FilterHeaderAction::new({fvar}) {{`")
+    for j, t in enumerate(rest):
+        if t.kind == "id" and t.text == fvar and j != k + 7:
+            parser.fail(f"`{fvar}` is used again after it was handed to `FilterHeaderAction::new`", t)
+        if t.kind == "id" and t.text == "rules_applied":
+            parser.fail("`rules_applied` is touched after the selection loops", t)
+        if t.kind == "id" and t.text == "self" and texts[j + 1:j + 5] != [".", "get_applied_rule_ids", "(", ")"]:
+            parser.fail("`self` is used after the selection loops other than through `self.get_applied_rule_ids()`", t)
+    if not re.search(r"pub fn get_applied_rule_ids\(&self\) -> &LinkedHashSet<String> \{\s*&self\.rules_applied\s*\}", src):
+        fail(f"{path}: `get_applied_rule_ids` no longer returns `&self.rules_applied`")
     cfg = {
         "name": "genActionSelectHeaderFilters", "tparams": "{φ ι : Type}",
         "params": [("insert", "List ι → ι → List ι"), ("c", "Nat")], "loop_params": [],
@@ -1970,8 +1991,10 @@ def extract_select(read, fail):
     }
     out.append("")
     out += _emit(cfg, parser, stmts, ("var", lets[0][1], lets[0][4]), fail,
-                 "`Action::filter_headers`, the two selection loops: (filters handed to `FilterHeaderAction::new`, new `rules_applied`); "
-                 f"the application of the filters and the `X-RedirectionIo-RuleIds` header are not translated; translated from {path}.")
+                 "`Action::filter_headers`, the two selection loops: (the vector `filters`, `rules_applied`) AFTER THE TWO LOOPS.  The rest of the "
+                 "function is not translated; its shape is checked when this text is generated (the next statement hands exactly `filters` to "
+                 "`FilterHeaderAction::new`, neither `filters` nor `rules_applied` is touched again, `self` is only read through "
+                 f"`get_applied_rule_ids()` = `&self.rules_applied`); translated from {path}.")
     return out
 
 
@@ -2011,7 +2034,8 @@ def extract_visitor(read, fail):
         out.append("")
         out += _emit(cfg, parser, stmts, tail, fail,
                      f"`{struct}::enter`: ((next_enter, next_leave, start buffering, data), new `position`" +
-                     (", new `is_buffering`" if has_buf else "") + f"); strings as bytes, `v[i]` as `(v[i]?).getD []`; translated from {path}.")
+                     (", new `is_buffering`" if has_buf else "") + f"); strings as bytes; `v[i]` is rendered `(v[i]?).getD []` and `opt.as_ref().unwrap()` `opt.getD []`: the Rust PANICS (index out of "
+                     f"range, `unwrap` of `None`) are totalised here - Proofs/VisitorGen.lean shows that under the representation invariant the defaults are never used; translated from {path}.")
         hdr, _ = _sig(src, path, r"pub fn first\(&self\) -> String \{", fail)
         cfg = {"name": lean + "First", "params": [], "args": {}, "arg_types": [("elementTree", f"List ({B})")],
                "self_fields": {"element_tree": "elementTree"}, "self_field_types": {"element_tree": f"List ({B})"},
